@@ -151,8 +151,8 @@ DUR_TB = DB_TB + [
 ]
 PROPS["C02"] = {
     "level": "proof", "title": "Acknowledged writes survive a crash at any point; batches are all-or-nothing",
-    "lean_modules": ["Rain.Props.Durable", "Rain.Props.C12"], "components": ["c02"], "sig_prefixes": ["c02:", "c09:", "c11:file-needed"],
-    "technique": "Lean 4 proof that every prefix of an operation stream accepted by the durability monitor recovers to exactly the batches whose WAL append is in the prefix (C02_every_prefix_recovers) + the monitor evaluated on every recorded real stream + crash enumeration of EVERY prefix (and of prefixes of the recovery of crash images) on the real code with an acknowledged/in-flight oracle",
+    "lean_modules": ["Rain.Props.Durable", "Rain.Props.C12", "Rain.Props.Codec"], "components": ["c02", "codec"], "sig_prefixes": ["c02:", "c09:", "c11:file-needed", "codec:"],
+    "technique": "Lean 4 proof that every prefix of an operation stream accepted by the durability monitor recovers to exactly the batches whose WAL append is in the prefix (C02_every_prefix_recovers) + the monitor evaluated on every recorded real stream + crash enumeration of EVERY prefix (and of prefixes of the recovery of crash images) on the real code with an acknowledged/in-flight oracle + record codecs: Lean 4 model of the write-batch record and the manifest record with theorems for ALL records (round trip, injectivity, every proper prefix of a batch record is rejected, trailing bytes / torn fields of a manifest record are rejected, field-boundary cuts are exactly the shorter records); the real encoders and decoders are run against the model on generated records and on damaged encodings",
     "level_text": "Machine-checked proof over the durability model (persistent image as complete records, recovery function, ordering monitor) for every monitored stream and every prefix, i.e. every crash point, including crashes during recovery and repeated crash-recover rounds (recovery's operations are part of the stream). Tied to the code on every run: the stream of mutating filesystem operations recorded by SimFs for generated histories (writes, multi-key batches, values spanning several 32 KiB log blocks, flushes, compactions, manifest switches, reopens with both log-reuse settings) is translated to model operations and must be accepted by the monitor; independently every prefix of the stream (an even sample for long streams, always around renames/removals/creations) becomes a crash image that is reopened on the real code, compared with acknowledged +/- in-flight contents, written to, closed, reopened; crashes inside the recovery of crash images are enumerated one level deep.",
     "design_ref": "5 (C02)", "trusted_base": DUR_TB,
     "assumptions": ["a write is acknowledged only after its WAL append completed (apply_changes, proved at protocol level: C05_wal_before_memtable)", "crash = prefix of the operation stream; a torn last write is C16"],
@@ -175,8 +175,8 @@ PROPS["C08"] = {
 }
 PROPS["C15"] = {
     "level": "proof", "title": "Corrupted files are detected, never served as data",
-    "lean_modules": ["Rain.Props.C15"], "components": ["c15"], "sig_prefixes": ["c15:"],
-    "technique": "Lean 4 theorems for the checksum-protected spans (every single-byte change of a table block or of a log fragment's payload/checksum is rejected, under the explicit hypothesis that the checksum detects one-byte changes; kernel-checked witnesses that fragment length and type bytes are unprotected) + exhaustive single-byte corruption (flip, zero, random) and truncation of every persistent file of small database images on the real code",
+    "lean_modules": ["Rain.Props.C15", "Rain.Props.Codec"], "components": ["c15", "codec"], "sig_prefixes": ["c15:", "codec:"],
+    "technique": "Lean 4 theorems for the checksum-protected spans (every single-byte change of a table block or of a log fragment's payload/checksum is rejected, under the explicit hypothesis that the checksum detects one-byte changes; kernel-checked witnesses that fragment length and type bytes are unprotected) + exhaustive single-byte corruption (flip, zero, random) and truncation of every persistent file of small database images on the real code + record codecs: Lean 4 model of the write-batch record and the manifest record with theorems for ALL records (round trip, injectivity, every proper prefix of a batch record is rejected, trailing bytes / torn fields of a manifest record are rejected, field-boundary cuts are exactly the shorter records); the real encoders and decoders are run against the model on generated records and on damaged encodings",
     "level_text": "Proof for the CRC-protected spans only (under the named hypothesis DetectsOneByte, never an axiom); the format has no integrity evidence for log-fragment length/type bytes, footer handles and CURRENT, so those are decided by exhaustive per-offset exploration of generated images (a test, labelled as such): every offset of every table, WAL, manifest and CURRENT file (an even sample for larger files) x {bit flip, zero, random byte} plus table truncations; each mutated image is opened, scanned and probed with gets; allowed outcomes are an error, the exact expected contents, or (WAL only) the replay with one contiguous run of damaged batches skipped; panics, hangs and aborts are failures.",
     "design_ref": "5 (C15)", "trusted_base": DB_TB + ["CRC-32C detects every single-byte change (validated on every mutation of the exploration, not proved)"],
     "assumptions": ["single-byte corruptions and truncations only", "three format-level / iterator-API findings are recorded as known findings and reported by KNOWN-FINDING lines"],
